@@ -13,8 +13,9 @@ Anchors (forml/runtime/_service):
                                             **and** `stopped.set()`
                  `Executor.run`           : `results.get` → `pending[id].set_result/…exception`; `del pending[id]`;
                                             leaves the loop when `stopped` is set
-* `forml/provider/runner/pyfunc.py` `Runner.call`: the pure function of (instance states, entry) — here the
-  uninterpreted `Outcome.value inst payload` ("f inst payload").
+* `forml/provider/runner/pyfunc.py` `Runner.call`: the worker's long-lived `Expression` applied to the entry — modelled in
+  `ForML.Model.ServingWorker` (`workerCall`: fork replicas, evaluation order of the branches, the `finally` reset and what a
+  worker carries from one request to the next); the property's "f inst payload" is `runModel`.
 
 Everything is indexed by naturals: callers, applications, instances, task ids, workers.
 The flag `Config.locked` selects between the code as it exists (`true`: the check/list/update/test block of
@@ -27,33 +28,8 @@ event-loop thread and is one step (`submit` = `Dealer.__call__` + `Executor.appl
 `tasks.put`, `index += 1`); the thread pool (`desc`, `decodeFail`), the worker processes (`take`, `finish`), the
 executor thread (`deliver`) and the process pool of `_pack` (`respond`) interleave freely.
 -/
+import ForML.Model.ServingWorker
 namespace ForML.Serving
-
-/-- What the decoded request carries into the pipeline (`layout.Entry`): a payload token and whether the entry
-is well-formed (`ok`), lacks a required column (`Producer.__call__` raises `forml.MissingError` inside the
-worker) or makes the actor raise a non-platform exception (`fatal`, outside the property's fault class). -/
-inductive EntryKind where
-  | ok | missingColumn | fatal
-  deriving DecidableEq, Repr
-
-structure Entry where
-  kind : EntryKind
-  payload : Nat
-  deriving DecidableEq, Repr
-
-/-- Error kinds a caller can observe. `missingApp`, `unsupported`, `missingFeatures` are the platform-level
-errors of the property; `fatal` is the non-platform exception itself, `notRunning` is
-`RuntimeError('Executor not running')` of `Executor.apply` after the pool was stopped. -/
-inductive Err where
-  | missingApp | unsupported | missingFeatures | fatal | notRunning
-  deriving DecidableEq, Repr
-
-/-- `value inst payload` is the uninterpreted `f inst payload` (injective in both arguments, so that any
-crossing of responses is visible). -/
-inductive Outcome where
-  | value (inst payload : Nat)
-  | error (e : Err)
-  deriving DecidableEq, Repr
 
 /-- One request: target application, whether its content type has no decoder (`get_decoder` raises
 `Encoding.Unsupported` in `_dispatch`), whether none of its `accept` encodings has an encoder (`get_encoder` raises
@@ -78,17 +54,18 @@ structure Config where
   workers : Nat
   /-- `_get_descriptor` critical section under a lock (the proposed repair) -/
   locked : Bool
+  /-- instance ↦ number of parallel mapper branches its pipeline fans out into (`≤ 1`: linear pipeline) -/
+  fanout : Nat → Nat := fun _ => 1
+  /-- reset discipline of `pyfunc.Expression.__call__` (`always` = the code that exists) -/
+  reset : ResetPolicy := .always
 
 def spec (cfg : Config) (c : Nat) : CallerSpec := cfg.callers.getD c default
 
 def entryOf (cfg : Config) (c : Nat) : Entry := (spec cfg c).entry
 
-/-- `Pool.Worker.run` around `pyfunc.Runner.call`: what a worker of instance `inst` puts on the result queue. -/
-def runModel (inst : Nat) (e : Entry) : Outcome :=
-  match e.kind with
-  | .ok => .value inst e.payload
-  | .missingColumn => .error .missingFeatures
-  | .fatal => .error .fatal
+/-- the property's `f inst payload` for instance `inst` of this configuration (`runModel` with the instance's fan-out):
+what a worker of `inst` puts on the result queue when its `Expression` starts clean -/
+def runInst (cfg : Config) (inst : Nat) (e : Entry) : Outcome := runModel (cfg.fanout inst) inst e
 
 /-- `Wrapper._pack` / `descriptor.respond`: the outcome encoded for caller `c`, or `Encoding.Unsupported`. -/
 def encode (cfg : Config) (c : Nat) (o : Outcome) : Outcome :=
@@ -97,15 +74,15 @@ def encode (cfg : Config) (c : Nat) (o : Outcome) : Outcome :=
 /-- what caller `c` finally gets for the result `o` its task produced: an exception is re-raised by
 `await self._dealer(...)`, a value goes through `respond` -/
 def finalOf (cfg : Config) (c : Nat) : Outcome → Outcome
-  | .value i p => encode cfg c (.value i p)
   | .error e => .error e
+  | o => encode cfg c o
 
 /-- The property's right-hand side: the outcome computed from the caller's own payload by the instance its
 application selected, or the platform error of its own request. -/
 def expected (cfg : Config) (c : Nat) : Outcome :=
   if (spec cfg c).app ∈ cfg.inventory then
     if (spec cfg c).badEncoding then .error .unsupported
-    else finalOf cfg c (runModel (cfg.select (spec cfg c).app) (entryOf cfg c))
+    else finalOf cfg c (runInst cfg (cfg.select (spec cfg c).app) (entryOf cfg c))
   else .error .missingApp
 
 structure Task where
@@ -119,7 +96,8 @@ structure Result where
   deriving DecidableEq, Repr
 
 /-- `prediction.Executor` (+ its `Pool`): `next` = `_index`, `pending` = `_pending` (id ↦ caller's future),
-`taskQ`/`resultQ` = the manager queues (FIFO), `held` = the task each busy worker took, `stopped` = the event. -/
+`taskQ`/`resultQ` = the manager queues (FIFO), `held` = the task each busy worker took, `stopped` = the event,
+`carry w` = what worker `w`'s long-lived `Expression` keeps between two tasks (replica deque, calls served). -/
 structure Exec where
   started : Bool := false
   next : Nat := 0
@@ -128,6 +106,7 @@ structure Exec where
   held : List (Nat × Task) := []
   resultQ : List Result := []
   stopped : Bool := false
+  carry : Nat → Carry := fun _ => {}
 
 /-- Where a caller is in `Engine.apply`. `d0`–`d4` are the atomic steps of `Wrapper._get_descriptor`:
 `d0` before `application not in self._descriptors`, `d1` before `self._inventory.list()`, `d2 l` before
@@ -222,8 +201,10 @@ def step (cfg : Config) (s : State) : Step → Option State
     | none => none
     | some t =>
       some { s with execs := upd s.execs i { e with
-        held := e.held.erase (w, t), resultQ := e.resultQ ++ [⟨t.id, runModel i t.entry⟩],
-        stopped := e.stopped || decide (t.entry.kind = .fatal) } }
+        held := e.held.erase (w, t),
+        resultQ := e.resultQ ++ [⟨t.id, (workerCall cfg.reset i (cfg.fanout i) (e.carry w) t.entry).1⟩],
+        stopped := e.stopped || decide (t.entry.kind = .fatal),
+        carry := upd e.carry w (workerCall cfg.reset i (cfg.fanout i) (e.carry w) t.entry).2 } }
   | .deliver i =>
     let e := s.execs i
     if e.stopped then none
@@ -233,13 +214,13 @@ def step (cfg : Config) (s : State) : Step → Option State
         match e.pending.lookup r.id with
         | none => some { s with execs := upd s.execs i { e with resultQ := q, stopped := true } }
         | some c =>
-          match r.out with
-          | .error err =>
+          match r.out.err? with
+          | some err =>
             some { answer s c (.error err) with
               execs := upd s.execs i { e with resultQ := q, pending := e.pending.erase (r.id, c) } }
-          | .value vi vp =>
+          | none =>
             some { s with
-              phase := upd s.phase c (.responding (.value vi vp))
+              phase := upd s.phase c (.responding r.out)
               execs := upd s.execs i { e with resultQ := q, pending := e.pending.erase (r.id, c) } }
   | .respond c =>
     match s.phase c with
